@@ -41,4 +41,70 @@ theorem cloneNegDoc_not_decoOk : ¬ DecoOk cloneNegDoc.root := by
   simp only [cloneNegDoc, DecoOk, DecoOkList, PStyle.DecoOk, plainSt]
   decide +kernel
 
+/-- **`find_earlier_page_break` keeps the bottom decoration and the stale height of the box it cuts**
+(clause "a fragmented box's own bottom padding/border also fits" is false of the layout, with
+`box-decoration-break: slice` and only non-negative lengths). 50px pages; a block with `padding-bottom: 5px` and
+`break-after: avoid-page` holding five 10px lines, then a one-line paragraph. The block is first laid out
+whole (its five lines fit, its padding does not: second layout with `bottom_space = 5`, four lines, fragment
+stretched); the next paragraph does not fit, the break before it is avoided, `find_earlier_page_break` cuts the
+block's paragraph after line 3 and rebuilds the block with `child.copy_with_children(...)`: the copy keeps
+`padding_bottom = 5` (a fragment that is continued must lose it) and the height 50 of the five-line layout, so
+its border box ends at 55, below the page bottom, and the box is continued on the next page.
+Reproduced on WeasyPrint itself (same numbers): `py/props/c03.py::earlier_break_keeps_decoration`. -/
+def earlierDecoDoc : Doc :=
+  { pageH := 50, rootLtr := true,
+    root := .block 0 { plainSt with isRoot := true }
+      [.block 1 plainSt
+        [.block 2 { plainSt with pb := 5, brkAfter := .avoidPage } [.para 3 5 10 plainSt],
+         .para 4 1 10 plainSt]] }
+
+/-- For each fragment of box 2, in page order: (lines shown, padding-bottom kept, height, bottom of the border
+box, is the document continued on the next page). -/
+def box2Fragments (d : Doc) : Option (List (List Nat × Rat × Rat × Rat × Bool)) :=
+  (paginate d 10).map (fun ps => (ps.map (fun p =>
+    match p.root with
+    | .block _ _ _ _ [.block _ _ _ _ kids] =>
+      kids.filterMap (fun k => match k with
+        | .block 2 _ _ g [.para _ _ _ _ _ lines] =>
+          some (lines.map Prod.fst, g.pb, g.h, g.borderBoxY + g.borderHeight, p.resume.isSome)
+        | _ => none)
+    | _ => [])).flatten)
+
+theorem earlier_break_keeps_bottom_decoration :
+    box2Fragments earlierDecoDoc = some [([0, 1, 2, 3], 5, 50, 55, true), ([4], 5, 10, 15, false)] := by
+  decide +kernel
+
+/-- The cause, for every fragment: the box rebuilt by `find_earlier_page_break`
+(`child.copy_with_children(new_grand_children)`) keeps the whole used geometry of the box it replaces — position,
+margins, paddings, borders *and height* — although it now holds fewer lines and is continued on the next page. -/
+theorem earlier_break_keeps_geometry (x x' : Frag) (r : Resume) (h : findEarlierFrag x = some (x', r)) :
+    x'.geo = x.geo ∧ x'.st = x.st := by
+  cases x with
+  | para id idx st n g lines =>
+    simp only [findEarlierFrag] at h
+    unfold findEarlierPara at h
+    split at h
+    · cases h
+    · dsimp only at h
+      split at h
+      · cases h
+      · split at h
+        · simp only [Option.some.injEq, Prod.mk.injEq] at h
+          obtain ⟨rfl, _⟩ := h
+          exact ⟨rfl, rfl⟩
+        · cases h
+  | block id idx st g kids =>
+    simp only [findEarlierFrag] at h
+    split at h
+    · simp only [Option.some.injEq, Prod.mk.injEq] at h
+      obtain ⟨rfl, _⟩ := h
+      exact ⟨rfl, rfl⟩
+    · cases h
+
+/-- The hypotheses of the line theorem hold here (`DecoOk`): the lines themselves fit; it is the box's own
+decoration that does not. -/
+theorem earlierDecoDoc_decoOk : DecoOk earlierDecoDoc.root := by
+  simp only [earlierDecoDoc, DecoOk, DecoOkList, PStyle.DecoOk, plainSt]
+  decide +kernel
+
 end Wp.C03Witness
